@@ -97,6 +97,30 @@ class StmtMixin:
         if m is None:
             self.limit(f'statement {node.__class__.__name__} not supported', node)
         m(node)
+        tc = self.top_contract
+        if tc is not None and tc.ghost_code and self.frame.contract is tc and not isinstance(node, (ast.For, ast.While, ast.If, ast.Try, ast.With)):
+            txt = anchor_txt(node)
+            code = tc.ghost_code.get(txt)
+            if code is not None:
+                self.run_ghost(code, txt)
+
+    def run_ghost(self, code, where):
+        """Ghost statements (part of the specification): may only assign names starting with g_."""
+        tree = self._ghost_cache.setdefault(code, ast.parse(code).body) if hasattr(self, '_ghost_cache') else None
+        if tree is None:
+            self._ghost_cache = {}
+            tree = self._ghost_cache.setdefault(code, ast.parse(code).body)
+        for st in tree:
+            if not (isinstance(st, ast.Assign) and all(isinstance(t, ast.Name) and t.id.startswith('g_') for t in st.targets)):
+                self.limit(f'ghost code after `{where}` may only assign g_ names')
+            self.spec_mode = getattr(self, 'spec_mode', 0) + 1
+            try:
+                v = self.ev(st.value)
+            finally:
+                self.spec_mode -= 1
+            for t in st.targets:
+                self.frame.env[t.id] = v
+        self.st.log.append(('ghost', where))
 
     # ---------------------------------------------------------------- simple
     def ex_Pass(self, node):
@@ -192,7 +216,8 @@ class StmtMixin:
         c = self.cell(v)
         k = kinds[nm]
         if isinstance(c, ListCell) and c.seq is None:
-            Core.setcell(self, v, ListCell(z3.Empty(z3.SeqSort(kind_sort(k))), k))
+            Core.setcell(self, v, ListCell(z3.Empty(z3.SeqSort(kind_sort(k))), k,
+                                           z3.StringVal('') if k == 'str' else None))
         elif isinstance(c, DictCell) and not c.items:
             kk, vk = k[0], k[1]
             ordered = len(k) > 2 and k[2]
@@ -602,7 +627,8 @@ class StmtMixin:
         if isinstance(c, ListCell):
             if c.seq is None:
                 self.limit('cannot havoc an untyped empty list (declare its kind)', node)
-            self.setcell(ptr, ListCell(z3.Const(self.fresh_name('hv'), c.seq.sort()), c.kind))
+            self.setcell(ptr, ListCell(z3.Const(self.fresh_name('hv'), c.seq.sort()), c.kind,
+                                       z3.String(self.fresh_name('hvjoined')) if c.joined is not None else None))
         elif isinstance(c, MapCell):
             dom = z3.Const(self.fresh_name('hv_dom'), c.dom.sort())
             vals = z3.Const(self.fresh_name('hv_val'), c.vals.sort()) if c.vals is not None else None
